@@ -271,6 +271,103 @@ fn ss_udp_session<W: Write>(r: &mut Rec<W>, c: Cipher, users: usize, rng: &mut S
     Ok(())
 }
 
+/// SentFresh: a message that carries a timestamp is stamped when it is SENT.  The session object (the per-connection
+/// codec) is created at clock offset `base`, the clock is then moved on by `idle` seconds before the first write goes
+/// through it, and the reference opener reads the timestamp the real encoder put on the wire: `dts` = that timestamp
+/// minus the (shifted) clock at the moment of the write.  Logged as Stamp events for TraceWire.
+fn stamp_sessions<W: Write>(w: &mut W, rng: &mut SmallRng, errors: &mut Vec<String>) -> u64 {
+    use octo_squirrel::verif::set_clock_offset;
+    let mut n = 0u64;
+    let now_shifted = |off: i64| rc::unix_now() as i64 + off;
+    for idle in [0i64, 31, 45, 300] {
+        for c in Cipher::ALL {
+            if !c.is_2022() {
+                continue;
+            }
+            let base = rng.random_range(-400..400i64) * 2 + 1; // never 0 (0 = real clock)
+            let addr = stream::test_addr(rng.random_range(0..3));
+            let (cp, sp, _us) = sut::ss_passwords(c, 0);
+            let key_len = c.key_len();
+            let res = (|| -> Result<Vec<(String, i64)>, String> {
+                let mut out = Vec::new();
+                // stream request
+                set_clock_offset(base);
+                let mut client = cv::tcp_codec(&sut::ss_client_cfg(c, 0), &addr.to_octo()).map_err(|e| e.to_string())?;
+                let listener = sv::listener(&sut::ss_server_cfg(c, 0)).map_err(|e| e.to_string())?;
+                let mut server = listener.new_codec().map_err(|e| e.to_string())?;
+                set_clock_offset(base + idle);
+                let mut c2s = BytesMut::new();
+                client.encode(BytesMut::from(&b"ping"[..]), &mut c2s).map_err(|e| e.to_string())?;
+                let at = now_shifted(base + idle);
+                let master = rc::keys_2022(&cp).0;
+                let o = rc::open_ss_stream(c, &master, &c2s, 0, Some(11));
+                let fixed = o.units.iter().find(|u| u.kind == "fixed").ok_or("no fixed header in the real client's request")?;
+                let ts = u64::from_be_bytes(fixed.plain[1..9].try_into().unwrap()) as i64;
+                out.push(("ss2022-req".to_owned(), ts - at));
+                // stream response: the server codec exists since `base`, its first answer is written idle seconds later
+                let got = sut::server_decode(&mut server, &mut c2s.clone());
+                if !matches!(got, sut::Got::Connect(..)) {
+                    out.push(("ss2022-req-refused-by-real-server".to_owned(), 999));
+                } else {
+                    set_clock_offset(base + 2 * idle);
+                    let mut s2c = BytesMut::new();
+                    server.encode(sv::Out::Tcp(BytesMut::from(&b"pong"[..])), &mut s2c).map_err(|e| e.to_string())?;
+                    let at = now_shifted(base + 2 * idle);
+                    let o = rc::open_ss_stream(c, &rc::b64(&sp), &s2c, 0, Some(1 + 8 + key_len + 2));
+                    let fixed = o.units.iter().find(|u| u.kind == "fixed").ok_or("no fixed header in the real server's response")?;
+                    let ts = u64::from_be_bytes(fixed.plain[1..9].try_into().unwrap()) as i64;
+                    out.push(("ss2022-resp".to_owned(), ts - at));
+                }
+                // datagram
+                set_clock_offset(base);
+                let mut pc = cv::packet_codec(&sut::ss_client_cfg(c, 0), &addr.to_octo()).map_err(|e| e.to_string())?;
+                set_clock_offset(base + idle);
+                let mut w = BytesMut::new();
+                pc.encode((BytesMut::from(&b"dgram"[..]), addr.to_octo()), &mut w).map_err(|e| e.to_string())?;
+                let at = now_shifted(base + idle);
+                let key = rc::keys_2022(&cp).0;
+                let p = rc::open_udp2022(c, &key, &key, 0, false, &w).ok_or("reference opener cannot read the real client's datagram")?;
+                out.push(("ss2022-udp-c2s".to_owned(), p.ts as i64 - at));
+                Ok(out)
+            })();
+            set_clock_offset(0);
+            match res {
+                Ok(rows) => {
+                    for (what, dts) in rows {
+                        let _ = writeln!(w, "{}", json!({"ev": "Stamp", "what": what, "cipher": c.name(), "idle": idle, "dts": dts}));
+                        n += 1;
+                    }
+                }
+                Err(e) => errors.push(format!("stamp {}: {e}", c.name())),
+            }
+        }
+        for cipher in c04::VMESS {
+            let base = rng.random_range(-400..400i64) * 2 + 1;
+            let addr = stream::test_addr(0);
+            let res = (|| -> Result<i64, String> {
+                set_clock_offset(base);
+                let mut client = cv::tcp_codec(&sut::vmess_client_cfg(cipher, sut::UUID_A), &addr.to_octo()).map_err(|e| e.to_string())?;
+                set_clock_offset(base + idle);
+                let mut c2s = BytesMut::new();
+                client.encode(BytesMut::from(&b"ping"[..]), &mut c2s).map_err(|e| e.to_string())?;
+                let at = now_shifted(base + idle);
+                let ck = rv::cmd_key(sut::UUID_A).unwrap();
+                let (t, _, _) = rv::open_request_header(&ck, &c2s).ok_or("reference opener cannot open the real client's VMess header")?;
+                Ok(t - at)
+            })();
+            set_clock_offset(0);
+            match res {
+                Ok(dts) => {
+                    let _ = writeln!(w, "{}", json!({"ev": "Stamp", "what": "vmess-auth", "cipher": cipher, "idle": idle, "dts": dts}));
+                    n += 1;
+                }
+                Err(e) => errors.push(format!("stamp vmess:{cipher}: {e}")),
+            }
+        }
+    }
+    n
+}
+
 pub fn record(args: &[String]) -> anyhow::Result<()> {
     util::quiet_panics();
     let o = util::opts(args);
@@ -334,7 +431,15 @@ pub fn record(args: &[String]) -> anyhow::Result<()> {
         }
         fw.flush()?;
     }
-    println!("{}", json!({"summary": true, "files": files, "fresh_file": fp, "fresh_values": r.fresh.len(), "sessions": total_sessions, "units": total_units,
+    let sp = format!("{out}_stamp.ndjson");
+    let stamps = {
+        let mut sw = std::io::BufWriter::new(std::fs::File::create(&sp)?);
+        writeln!(sw, "{}", json!({"ev": "Session", "proto": "all", "dir": "-", "fmt": "datagram", "limit": 0}))?;
+        let n = stamp_sessions(&mut sw, &mut rng, &mut errors);
+        sw.flush()?;
+        n
+    };
+    println!("{}", json!({"summary": true, "files": files, "fresh_file": fp, "stamp_file": sp, "stamps": stamps, "fresh_values": r.fresh.len(), "sessions": total_sessions, "units": total_units,
         "errors": errors.len(), "examples": errors.iter().take(8).collect::<Vec<_>>()}));
     Ok(())
 }
